@@ -24,6 +24,12 @@ NEG_CFG = "C17_Gen_neg_all"
 NEG_MUST = {"Inv_NoForeignHash": "Buggy_PickleCarriesHash",
             "Inv_DigestIsStructural": "Buggy_DigestUsesProcess",
             "Inv_CompiledComputes": "Buggy_CompiledLosesVars"}
+# round 2: a second run with the other three switches (own instantiations: a user node with a
+# keyword-only field, a compiled expression using a context name, a DAG next to the equal tree)
+NEG2_CFG = "C17_Gen_neg_all2"
+NEG2_MUST = {"Inv_EqIsPyEq": "Buggy_SetstateByPosition",
+             "Inv_CompiledComputes": "Buggy_ArgsBySetOrder",
+             "Inv_DigestIsStructural": "Buggy_DigestSkipsShared"}
 # (C17_Gen_neg_<switch>.cfg run one switch at a time; C17_Gen_cat.cfg is the same
 # small space with all switches off and must be clean)
 
@@ -176,17 +182,24 @@ def generate(cfgname, **kw):
     return gen, head[0], cases
 
 
-def negative_controls(out, res=None):
-    if res is None:
-        res = kit.run_tlc("C17_Gen", NEG_CFG, workers=2, heap="2g", continue_=True)
-    seen = set(res.invariant_violated)
-    missing = sorted(set(NEG_MUST) - seen)
-    if missing:
-        raise kit.MachineryError(
-            f"negative control {NEG_CFG}: TLC did not report {missing} violated "
-            f"(switches {[NEG_MUST[m] for m in missing]}; reported {sorted(seen)})")
-    out.add_tlc(res)
-    out.extra["negative_controls"] = {NEG_MUST[k]: k for k in sorted(NEG_MUST)}
+def run_negative():
+    return [kit.run_tlc("C17_Gen", cfg, workers=2, heap="2g", continue_=True)
+            for cfg in (NEG_CFG, NEG2_CFG)]
+
+
+def negative_controls(out, results=None):
+    if results is None:
+        results = run_negative()
+    out.extra["negative_controls"] = {}
+    for res, cfg, must in zip(results, (NEG_CFG, NEG2_CFG), (NEG_MUST, NEG2_MUST)):
+        seen = set(res.invariant_violated)
+        missing = sorted(set(must) - seen)
+        if missing:
+            raise kit.MachineryError(
+                f"negative control {cfg}: TLC did not report {missing} violated "
+                f"(switches {[must[m] for m in missing]}; reported {sorted(seen)})")
+        out.add_tlc(res)
+        out.extra["negative_controls"].update({must[k]: k for k in sorted(must)})
 
 
 def signature(v):
@@ -261,7 +274,7 @@ def run(tier, seed, out):
     wd = kit.fresh_workdir("C17")
     # the negative control is independent of the rest: its JVM runs alongside
     negpool = cf.ThreadPoolExecutor(max_workers=1)
-    negfut = negpool.submit(kit.run_tlc, "C17_Gen", NEG_CFG, workers=2, heap="2g", continue_=True)
+    negfut = negpool.submit(run_negative)
     gen, head, cases = generate(f"C17_Gen_{tier}")
     out.add_tlc(gen)
     kit.log(f"C17: TLC generated {len(cases)} schedules ({gen.distinct} states, {gen.wall:.1f}s)")
